@@ -89,6 +89,27 @@ Theorem provisional_entry_bounded : forall ps c z srv lin cd k d,
 Proof. exact provisional_cases_cap. Qed.
 Print Assumptions provisional_entry_bounded.
 
+(* a nameserver address lookup that aborts the descent (the client's cancellation, a deadline, the recursion
+   work limit) or leaves no usable server: the final store never happens, and what is then found under the key
+   is what was there before or a provisional entry that ends within the inherited deadline - within every
+   shallower delegation's lease, within observed + min(NS TTL, DS TTL), within observed + 12 h - and within one
+   minute of its own filing.  (Seeded changes C08-2 / C08-7 break exactly this: a provisional entry bounded by the
+   referral's own lease survives the ancestor's.) *)
+Theorem aborted_lookup_leaves_bounded_entry : forall fx st i r rs d,
+  st_rs st i = Some rs ->
+  valid_referral (r_coherent r) (r_zone r) (rs_zone rs) (rs_q rs) = true ->
+  r_valid r = true -> r_pdet r = false ->
+  dc_get (st_dc st) (r_get r) (r_zone r) = None ->
+  r_abort r || negb (r_reach r) = true ->
+  st_dc (process_delegation fx st i r) (r_zone r) = Some d -> st_dc st (r_zone r) <> Some d ->
+  d_exp d <= child_deadline fx rs r /\
+  (forall c, cut_time (rs_cut rs) = Some c -> d_exp d <= c) /\
+  d_exp d <= r_obs r + lease_ttl r /\
+  (fx = true -> d_exp d <= r_obs r + max_ttl) /\
+  exists tn tc, In (tn, tc) (r_prov r) /\ d_exp d <= tn + provisional_cap /\ tc < d_exp d.
+Proof. exact aborted_lookup_lemma. Qed.
+Print Assumptions aborted_lookup_leaves_bounded_entry.
+
 (* a referral racing a cached descent: when another resolution has stored the delegation meanwhile, nothing
    is written and the descent (and the request tree) keeps the SHORTER of the cached lease and the deadline
    of the referral just observed *)
